@@ -273,7 +273,7 @@ func ValEq(a, b *V) bool {
 	}
 	switch a.T.K {
 	case KNum:
-		return math.Abs(a.N-b.N) < Eps
+		return a.N == b.N || math.Abs(a.N-b.N) < Eps
 	case KStr:
 		return a.S == b.S
 	case KBool:
